@@ -1251,6 +1251,8 @@ class H2Connection:
             ConnectionInputs.SEND_PRIORITY
         )
 
+        _check_priority(stream_id, weight, depends_on)
+
         frame = PriorityFrame(stream_id)
         frame = _add_frame_priority(frame, weight, depends_on, exclusive)
 
@@ -2060,6 +2062,15 @@ def _check_priority(stream_id, weight, depends_on):
     Validates the priority information for a stream, raising ProtocolError if
     it is not acceptable.
     """
+    # Stream identifiers are non-zero 31-bit numbers; a dependency may also
+    # be zero (the root of the tree).
+    if not (1 <= stream_id <= H2Connection.HIGHEST_ALLOWED_STREAM_ID):
+        raise ProtocolError("Invalid stream ID %d" % stream_id)
+
+    if depends_on is not None and not (
+            0 <= depends_on <= H2Connection.HIGHEST_ALLOWED_STREAM_ID):
+        raise ProtocolError("Invalid stream dependency %d" % depends_on)
+
     # A stream may not depend on itself.
     if depends_on == stream_id:
         raise ProtocolError(
